@@ -8,6 +8,9 @@ import (
 
 	goat "github.com/avos-io/goat"
 	"github.com/avos-io/goat/gen/goatorepo"
+	"google.golang.org/grpc/status"
+	"google.golang.org/protobuf/proto"
+	"google.golang.org/protobuf/types/known/anypb"
 	"google.golang.org/protobuf/types/known/wrapperspb"
 )
 
@@ -15,9 +18,19 @@ import (
 // been read from the client's transport — while the caller is slow to read (the last message is still
 // being offered to it, the trailer is queued behind it). THEN the connection fails. The stream did
 // complete: the caller must still get every message and io.EOF, not the connection's error.
-func c02CompletedThenConnFail(r *Run) {
+func c02CompletedThenConnFail(r *Run) { c02CompletedThenConnFailWith(r, false) }
+
+// withStatus (C03): the trailer that was read before the connection failed carries, in turn, OK, a
+// plain status and a status with details; the caller must be told exactly that, not the connection's error.
+func c02CompletedThenConnFailWith(r *Run, withStatus bool) {
 	if !r.Want("completed") {
 		return
+	}
+	det, _ := anypb.New(&wrapperspb.StringValue{Value: "detail-0"})
+	statuses := []*goatorepo.ResponseStatus{
+		{Code: 0, Message: "OK"},
+		{Code: 5, Message: "gone"},
+		{Code: 9, Message: "precondition \x00 é", Details: []*anypb.Any{det}},
 	}
 	body := func(i int) *goatorepo.Body {
 		b, _ := goat_marshal(&wrapperspb.BytesValue{Value: srvMsg(i)})
@@ -27,7 +40,11 @@ func c02CompletedThenConnFail(r *Run) {
 	for rep := 0; rep < reps && r.NumViolations() <= 4; rep++ {
 		for k := 1; k <= 3; k++ {
 			for _, fail := range []error{io.EOF, io.ErrUnexpectedEOF, errInjectedRead} {
-				in := map[string]any{"messages": k, "read_error": fmt.Sprint(fail), "rep": rep}
+				st := statuses[0]
+				if withStatus {
+					st = statuses[(rep+k)%len(statuses)]
+				}
+				in := map[string]any{"messages": k, "read_error": fmt.Sprint(fail), "rep": rep, "status_code": st.Code, "status_message": st.Message, "details": len(st.Details)}
 				r.Progress("completed", in)
 				hooks.Reset(true)
 				sc := NewScript(0)
@@ -65,7 +82,7 @@ func c02CompletedThenConnFail(r *Run) {
 					}
 				}
 				// the OK trailer: read from the transport, queued behind the message the caller has not taken
-				ok = ok && feed(&Rpc{Id: open.Id, Header: hdr(), Status: &goatorepo.ResponseStatus{Code: 0, Message: "OK"}, Trailer: &goatorepo.Trailer{}})
+				ok = ok && feed(&Rpc{Id: open.Id, Header: hdr(), Status: proto.Clone(st).(*goatorepo.ResponseStatus), Trailer: &goatorepo.Trailer{}})
 				if ok && !sc.WaitReads(k+2, hangTimeout) {
 					r.Violate("completed.stall", "history", "the client's read loop did not come back for more input", in, goroutineDump(), nil)
 					ok = false
@@ -98,7 +115,17 @@ func c02CompletedThenConnFail(r *Run) {
 						if !seqEqual(got, want) {
 							r.Violate("completed.s2c", "history", "caller received something other than exactly what was delivered before the connection failed", in, seqStr(got), seqStr(want))
 						}
-						if term != io.EOF {
+						if st.Code != 0 {
+							gs := status.Convert(term)
+							same := term != io.EOF && int32(gs.Code()) == st.Code && gs.Message() == st.Message && len(gs.Proto().GetDetails()) == len(st.Details)
+							for i := 0; same && i < len(st.Details); i++ {
+								same = proto.Equal(gs.Proto().GetDetails()[i], st.Details[i])
+							}
+							if !same {
+								r.Violate("completed.status", "history", "the stream's status trailer had been read before the connection failed, but the caller was told something else", in, fmt.Sprint(term), fmt.Sprintf("code=%d message=%q details=%d", st.Code, st.Message, len(st.Details)))
+							}
+							r.Count("completed.status")
+						} else if term != io.EOF {
 							r.Violate("completed.eof", "history", "a stream whose messages and OK trailer had all been read before the connection failed was reported to the caller as failed", in, fmt.Sprint(term), "EOF")
 						}
 					}
